@@ -79,6 +79,18 @@ def run_engine(ex: Execution, spec: Spec, oracle: Oracle) -> tuple[Any, list[Any
                 hd._external_adapter.abort()  # hard-stop the original run
                 state["consumer"].cancel()
                 e.loop.drain()
+                # the process "dies" here: nothing of the original run may survive (abort() alone does not
+                # reach worker tasks started inside the pending wait_for_next_task call)
+                import asyncio as _aio
+
+                for _ in range(3):
+                    left = [t for t in _aio.all_tasks(e.loop) if not t.done()]
+                    if not left:
+                        break
+                    for t in left:
+                        t.cancel()
+                    e.loop.drain()
+                h.gates.clear()
                 for lst in h.live.values():
                     lst.clear()
                 h.restart_marks.append(len(h.published))
